@@ -52,6 +52,10 @@ def run_once(case: Dict[str, Any], oracles: Sequence[str], res: CaseResult, M: M
     finally:
         if noframe:
             inspect.currentframe = real  # type: ignore[assignment]
+    if isinstance(out.build_exc, sched.HangDetected):
+        res.viol("hang-while-building", "building the DAG / creating the executor for this selection did not return (thread inside "
+                 f"tawazi in three samples one second apart after 45 s): {sched.LAST_GUARD_FRAMES}")
+        return None
     if out.build_exc is not None:
         res.viol("build-error", f"building / selecting raised {type(out.build_exc).__name__}: {out.build_exc}")
         return None
@@ -203,6 +207,7 @@ def sched_case(
     n_debug: int = 0,
     setup_call_rate: float = 0.0,
     flag_rate: float = 0.0,
+    warm_rate: float = 0.15,
 ) -> Dict[str, Any]:
     mode = draw(st.sampled_from(list(modes)))
     res_pool = list(resources)
@@ -215,12 +220,13 @@ def sched_case(
         flags = True
     kinds = list(dep_kinds) + (["flag"] if flags else [])
     sel_on = bool(sel_rate) and draw(st.floats(0, 1)) < sel_rate
+    setup_by_roots = bool(setup_call_rate) and bool(n_setup) and draw(st.floats(0, 1)) < setup_call_rate / 2
     P = draw(gen.flat_prog(min_sites=min_sites, max_sites=ms, max_deps=max_deps, resources=res_pool, prio_range=prio,
                            seq_rate=seq_rate, dep_kinds=kinds, wide=wide, reuse=reuse, n_params=n_params,
-                           mark_roots=not sel_on, index_rate=index_rate, bad_index_rate=bad_index_rate,
-                           n_setup=draw(st.integers(0, n_setup)) if n_setup else 0,
+                           mark_roots=not (sel_on or setup_by_roots), index_rate=index_rate, bad_index_rate=bad_index_rate,
+                           n_setup=(draw(st.integers(2, max(2, n_setup))) if setup_by_roots else draw(st.integers(0, n_setup))) if n_setup else 0,
                            n_debug=draw(st.integers(0, n_debug)) if n_debug else 0,
-                           split_rate=0.3 if flags else 0.0))
+                           split_rate=0.3 if flags else 0.0, same_qual_rate=0.12, setup_dense=setup_by_roots))
     sites = [s["site"] for s in P["body"]]
     fn_uses: Dict[str, int] = {}
     for s in P["body"]:
@@ -260,7 +266,16 @@ def sched_case(
         case["failing"] = draw(st.lists(st.sampled_from(pool), min_size=1, max_size=k, unique=True))
     if sel_on:
         case["sel"] = draw(selection_strategy(P))
-    if setup_call_rate and draw(st.floats(0, 1)) < setup_call_rate:
+    if setup_by_roots:
+        # dag.setup(root_nodes=R): accepted when every setup node lies below R, i.e. R = all setup sites without
+        # dependencies, provided they are roots of tawazi's graph (no constant argument either)
+        deps0 = gen.deps_of(P)
+        sroots = [s["site"] for s in P["body"] if P["fns"][s["fn"]].get("setup") and not deps0[s["site"]]]
+        if sroots and set(sroots) <= set(gen.true_roots(P)):
+            case["call"] = "setup"
+            case["sel"] = {"R": sroots}
+            case.pop("failing", None)
+    if case.get("call") != "setup" and setup_call_rate and draw(st.floats(0, 1)) < setup_call_rate:
         case["call"] = "setup"  # dag.setup(target_nodes=...) instead of a call
         case["sel"] = {"T": draw(st.lists(st.sampled_from(sites), min_size=0, max_size=3, unique=True))} if draw(st.booleans()) else None
         case.pop("failing", None)
@@ -286,6 +301,9 @@ def sched_case(
             case["reconf"] = {s: draw(st.integers(-3, 5)) for s in some[:half]}
         if some[half:]:
             case["reconf_seq"] = {s: draw(st.booleans()) for s in some[half:]}
+    if warm_rate and not case.get("failing") and case.get("call") != "setup" and draw(st.floats(0, 1)) < warm_rate \
+            and not any(f.get("setup") for f in P["fns"].values()):
+        case["warm"] = True  # the instance has been called once before it is (re)configured and observed
     if profile_rate and draw(st.floats(0, 1)) < profile_rate:
         case["profile"] = True  # cfg.TAWAZI_PROFILE_ALL_NODES: every node runs inside the profiling context
     if config_rate and draw(st.floats(0, 1)) < config_rate:
@@ -304,7 +322,13 @@ def selection_strategy(draw: Any, P: Dict[str, Any], valid_only: bool = True) ->
     sel: Dict[str, Any] = {}
     cur = set(sites)
     roots = gen.true_roots(P)
-    which = draw(st.sampled_from(["T", "X", "R", "TX", "RT", "RX", "RXT"]))
+    which = draw(st.sampled_from(["T", "X", "R", "TX", "RT", "RX", "RXT", "empty"]))
+    if which == "empty":
+        # an empty list is a selection too: nothing below no root / nothing needed by no target -> nothing runs
+        k = draw(st.sampled_from(["T", "R", "TX"]))
+        if k == "TX":
+            return {"T": [], "X": []}
+        return {k: []}
     if "R" in which and roots:
         sel["R"] = draw(st.lists(st.sampled_from(roots), min_size=1, max_size=len(roots), unique=True))
         cur = set()
